@@ -100,7 +100,7 @@ func runC10(t *simrt.Tape, o Opts) Outcome {
 		st.Class = fmt.Sprintf("world|%s|%v|%v|real=%d", h.base.Class(), keysOf(sources), faultKinds(w), w.RealSecrets)
 		st.Sample = map[string]any{"mode": "history", "secure_memory": []string{"", "protectedmemory", "memguard"}[w.RealSecrets], "buffer_sources": keysOf(sources), "buffers_checked": checked, "history": first(h.trace, 15)}
 	})
-	return finish(s, w, st, false)
+	return finish(s, w, st, true)
 }
 
 // runC10KMS: wrap and unwrap through the AWS plugins; the fake regional nodes retain the data key plaintexts.
